@@ -138,6 +138,8 @@ pub struct Interp {
     pub branches_taken: u64,
     pub branches_skipped: u64,
     pub in_function: usize,
+    /// arrays grown by push beyond this length end the reference run (outside the checked domain)
+    pub max_len: usize,
 }
 
 pub fn to_val(v: &RV) -> Val {
@@ -226,6 +228,7 @@ impl Interp {
             branches_taken: 0,
             branches_skipped: 0,
             in_function: 0,
+            max_len: 4096,
         }
     }
 
@@ -395,8 +398,7 @@ impl Interp {
                 }
             }
             RV::Builtin(name) => {
-                let vals: Vec<Val> = args.iter().map(to_val).collect();
-                builtins_ref::call_rv(self, name, &args, &vals)
+                builtins_ref::call_rv(self, name, &args)
             }
             _ => Err(rt(ErrClass::Other, "calling non-function")),
         }
